@@ -200,6 +200,11 @@ CONTROLS = [
      [("impl/Cargo.toml", 'full = [\n    "add",', 'full = [\n    "verif_hooks",\n    "add",')]),
     ("facade: unknown cfg syntax", "error",
      [("src/lib.rs", '#[cfg(feature = "from_str")]\nmod r#str;', '#[cfg(target_os = "linux")]\nmod r#str;')]),
+    ("facade: both Error re-export alternatives compiled at once", "alternatives",
+     [("src/lib.rs", '        #[cfg(not(feature = "std"))]\n        re_export_traits!("error", error_traits, core::error, Error);',
+       '        re_export_traits!("error", error_traits, core::error, Error);')]),
+    ("facade: std::error::Error impl of UnitError without the std gate", "exception",
+     [("src/ops.rs", '#[cfg(feature = "std")]\nimpl std::error::Error for UnitError {}', 'impl std::error::Error for UnitError {}')]),
     ("identity (control of the control)", "none", []),
 ]
 
@@ -236,6 +241,18 @@ def run_controls(chk):
             if bad:
                 got = "export"
                 detail = "%s::%s exported under %s" % (bad[0]["place"], bad[0]["derive"], c20_cfg.f_text(bad[0]["guard"]))
+        if got == "none":
+            for al in x["alternatives"]:
+                gl = al["guards"]
+                if any(c20_cfg.f_counterexample(c20_cfg.f_all([gl[i], gl[j]]), c20_cfg.FALSE) is not None
+                       for i in range(len(gl)) for j in range(i + 1, len(gl))):
+                    got = "alternatives"
+                    detail = "%s::%s defined twice under overlapping guards" % (al["module"], al["name"])
+        if got == "none":
+            for g_ in x["std_uses"]:
+                if c20_cfg.f_counterexample(g_, c20_cfg.var("std")) is not None:
+                    got = "std-use"
+                    detail = "std:: named under %s" % c20_cfg.f_text(g_)
         if got == "none" and expect in ("feature-map", "none"):
             # feature tables are judged by the Coq definition
             txt = c20_cfg.render(x)
@@ -489,7 +506,9 @@ def run(tier, seed, replay):
                         continue
                     seen_cfg.add(key)
                     jobs.append(api_job(j["features"], j["std"], api_base[j["std"]], "api-" + j["why"], ""))
-                    nj = neg_job(j["features"], j["std"], "apineg-" + j["why"])
+                    # absent-names probe: singles in the quick tier (what a pair over-exposes, one of its singles does too)
+                    nj = neg_job(j["features"], j["std"], "apineg-" + j["why"]) \
+                        if (thorough_phase or len(j["features"]) == 1) else None
                     if nj is not None:
                         jobs.append(nj)
             # ... and the witness feature sets of refuted impl / trait-export pairs
